@@ -19,7 +19,7 @@ class CFG:
 
     def text(self, pkg_h):
         tokpkg = pkg_h[:-2] + "/token" if pkg_h.endswith("/h") else None
-        out = ['<< import ( "%s" ; "%s/token" ) ; var _ = token.EOF >>' % (pkg_h, pkg_h[:-2]), ""]
+        out = ['<< import ( "%s" ; "%s/token" ) ; var _ = token.EOF ; var _ = h.Reset >>' % (pkg_h, pkg_h[:-2]), ""]
         d = self.by_lhs()
         order = []
         for (l, b, k, a) in self.prods:
